@@ -110,6 +110,24 @@ theorem layoutBits_exact (fmt : Format) (o : WOpts) (t : FTy) {bits bpd bpb : Na
   unfold valQ
   rw [hm, he]
 
+/-- including `+0.0` -/
+theorem layoutBits_exact_all (fmt : Format) (o : WOpts) (t : FTy) {bits bpd bpb : Nat}
+    (hr : fmt.mantissaRadix = 2 ^ bpd) (hb : fmt.exponentBase = 2 ^ bpb) (hp : IsPair bpd bpb)
+    (hfin : bits < (fmtOf t).infBits) :
+    layoutQ (2 ^ bpd) (2 ^ bpb) (layoutBits fmt o t bits) = valQ (fmtOf t) bits := by
+  by_cases h0 : 0 < bits
+  · exact layoutBits_exact fmt o t hr hb hp h0 hfin
+  · have hz : bits = 0 := by omega
+    subst hz
+    have hm : t.mantissa 0 = 0 := by cases t <;> decide
+    have hv : valQ (fmtOf t) 0 = 0 := by
+      unfold valQ
+      have : ((fmtOf t).decode 0).m = 0 := by cases t <;> decide
+      rw [this]; simp
+    unfold layoutBits
+    rw [hm, hv]
+    exact layoutME_zero fmt o _ hr hb hp.1
+
 /-- the literal's exact value as a fraction of naturals — the `(num, den)` the specification parser
 (`Spec.litBits`, the judge of `./check C06`) rounds -/
 def layoutFrac (r b : Nat) (l : Layout) : Nat × Nat :=
@@ -147,12 +165,12 @@ theorem layoutFrac_q (r b : Nat) (hr : 0 < r) (hb : 0 < b) (l : Layout) :
 /-- exactness ⇒ round trip: the fraction denoted by the written digits is rounded back (exact `roundNE`) to the same bits -/
 theorem layoutBits_roundtrip (fmt : Format) (o : WOpts) (t : FTy) {bits bpd bpb : Nat}
     (hr : fmt.mantissaRadix = 2 ^ bpd) (hb : fmt.exponentBase = 2 ^ bpb) (hp : IsPair bpd bpb)
-    (h0 : 0 < bits) (hfin : bits < (fmtOf t).infBits) :
+    (hfin : bits < (fmtOf t).infBits) :
     roundNE (fmtOf t) (layoutFrac (2 ^ bpd) (2 ^ bpb) (layoutBits fmt o t bits)).1
       (layoutFrac (2 ^ bpd) (2 ^ bpb) (layoutBits fmt o t bits)).2 = bits := by
   obtain ⟨hd, hq⟩ := layoutFrac_q (2 ^ bpd) (2 ^ bpb) (Nat.two_pow_pos _) (Nat.two_pow_pos _) (layoutBits fmt o t bits)
   have hwf : WF (fmtOf t) := by cases t; exact wf_f32; exact wf_f64
   apply LexVerif.Props.RoundNE.roundNE_of_valQ hwf hfin _ hd
-  rw [hq, layoutBits_exact fmt o t hr hb hp h0 hfin]
+  rw [hq, layoutBits_exact_all fmt o t hr hb hp hfin]
 
 end LexVerif.Proof.WriteBinaryBits
